@@ -741,6 +741,8 @@ type prepared struct {
 	sim   *sim
 	sizes map[int][]int64
 	n     int
+	// oracleOnly: no case lines for the model (a state the model cannot represent); the oracle judges
+	oracleOnly bool
 }
 
 func newPrepared() *prepared {
@@ -1076,6 +1078,13 @@ func execSegment(sc *ck.Script, i int, p *prepared) bool {
 		// no successor relation (C09's subject), so such scripts are not continued.
 		for _, id := range []int{4, 5} {
 			if p.sim.blobs[id] && !p.sim.entries[id] {
+				if continueUnindexed {
+					// the dgc-unindexed-subject scripts go on WITHOUT the model: every clause of the
+					// property is judged by the oracle at every kill point, no case line is written
+					p.oracleOnly = true
+					run.Count("oracle-only-unindexed-manifest-with-referrer")
+					return true
+				}
 				run.Count("script-abandoned-unindexed-manifest-with-referrer")
 				return false
 			}
@@ -1103,7 +1112,14 @@ func cannotReopen(tr *ck.Trace, err error) bool {
 // runMain: the last process of the script.  Record its final operation, then
 // kill it at every window system call (each time on a fresh copy of the prepared
 // directory).
+// continueUnindexed is set while a dgc-unindexed-subject script is generated and run (see execSegment).
+var continueUnindexed bool
+
 func runMain(sc *ck.Script, p *prepared, onlyK int, allK bool) {
+	caseLine := run.Case
+	if p.oracleOnly {
+		caseLine = func(string, string, string) {}
+	}
 	scriptPath := writeScript(p.dir, sc, sc.History, sc.Final)
 	hexJSON := common.Hex(sc.JSON())
 	rec := p.fresh("rec")
@@ -1141,12 +1157,12 @@ func runMain(sc *ck.Script, p *prepared, onlyK int, allK bool) {
 			results = append(results, f[2])
 		}
 	}
-	run.Case(run.NewID(), "R "+enc+" "+hexJSON, "RES "+strings.Join(results, " "))
+	caseLine(run.NewID(), "R "+enc+" "+hexJSON, "RES "+strings.Join(results, " "))
 	for _, x := range results {
 		run.Count("result:" + x)
 	}
 	// S: the script of the final operation
-	run.Case(run.NewID(), "S "+enc+" "+hexJSON, strings.TrimSpace("STEPS "+stepsText(steps)))
+	caseLine(run.NewID(), "S "+enc+" "+hexJSON, strings.TrimSpace("STEPS "+stepsText(steps)))
 	run.TracesAgainstImpl++
 	if len(steps) > 0 {
 		run.Nontrivial("S " + sc.Final.String() + " " + stepsText(steps))
@@ -1163,7 +1179,7 @@ func runMain(sc *ck.Script, p *prepared, onlyK int, allK bool) {
 			panic("kill run failed: " + o.err + " script " + sc.JSON())
 		}
 		if strings.HasPrefix(recText+" ", o.steps+" ") || o.steps == "" {
-			run.Case(id, fmt.Sprintf("K %d %s %d %s", o.j, enc, o.k, hexJSON), "STATE "+o.state)
+			caseLine(id, fmt.Sprintf("K %d %s %d %s", o.j, enc, o.k, hexJSON), "STATE "+o.state)
 		} else {
 			run.Count("cascade-order-differs-unjudged")
 		}
@@ -1919,16 +1935,26 @@ func runGeneratedIn(r *common.Rand, sc *ck.Script, histLen int, kind string, all
 		histLen = 0
 	}
 	if strings.HasPrefix(kind, "dgc-unindexed-subject") && !sc.NoAutoSave {
+		continueUnindexed = true
+		defer func() { continueUnindexed = false }()
 		// an earlier process died right after it had renamed manifest 4 into blobs/: the next process
 		// finds the blob but no index entry for it
 		sc.Pre = append(sc.Pre, ck.Segment{Final: ck.Op{Kind: "push", Blob: 4}, K: -1})
 		if !execSegment(sc, len(sc.Pre)-1, p) {
 			return
 		}
-		run.Count("unindexed-subject-scripts")
-		if crashes == 0 {
-			histLen = 0
+		// a second process pushes the referrer(s) and returns from that (it is killed in an unrelated
+		// Push afterwards); the process that deletes then LOADS a layout whose index.json names 5 but
+		// not 4: 4 is in its graph (reached from 5) without a reference of its own
+		s2 := p.sim.clone()
+		seg := ck.Segment{Final: ck.Op{Kind: "push", Blob: 2}, K: -1}
+		pick(kind, s2, &seg.History)
+		sc.Pre = append(sc.Pre, seg)
+		if !execSegment(sc, len(sc.Pre)-1, p) {
+			return
 		}
+		run.Count("unindexed-subject-scripts")
+		histLen = 0
 	}
 	s := p.sim.clone()
 	sc.History = genHistory(r, sc, s, histLen)
